@@ -26,12 +26,13 @@ type FuncOut struct {
 }
 
 type Output struct {
-	Repo     string     `json:"repo"`
-	Tags     string     `json:"tags"`
-	LoadTime float64    `json:"load_time_s"`
-	Funcs    []*FuncOut `json:"funcs"`
-	Trusted  []string   `json:"trusted_contracts,omitempty"`
-	Error    string     `json:"error,omitempty"`
+	Repo     string       `json:"repo"`
+	Tags     string       `json:"tags"`
+	LoadTime float64      `json:"load_time_s"`
+	Funcs    []*FuncOut   `json:"funcs"`
+	Trusted  []string     `json:"trusted_contracts,omitempty"`
+	Tables   []*OblResult `json:"table_facts,omitempty"`
+	Error    string       `json:"error,omitempty"`
 }
 
 func constantToInt(tv types.TypeAndValue) constant.Value { return constant.ToInt(tv.Value) }
@@ -141,6 +142,28 @@ func main() {
 			continue
 		}
 		todo = append(todo, ct)
+	}
+	eng.checkTableFacts()
+	for _, tf := range eng.tableFacts {
+		st := "failed"
+		if tf.OK {
+			st = "discharged"
+		}
+		if len(wantProps) > 0 {
+			hit := false
+			for _, p := range tf.Cl.Props {
+				if wantProps[p] {
+					hit = true
+				}
+			}
+			if !hit {
+				continue
+			}
+		}
+		if onlyRe != nil && !onlyRe.MatchString("table/"+tf.Global) {
+			continue
+		}
+		res.Tables = append(res.Tables, &OblResult{Name: "table/" + tf.Global + "/fact#" + tf.Cl.Name, Kind: "table", Props: tf.Cl.Props, Status: st, Instances: 1, Model: tf.Detail, Solvers: []string{"exhaustive-evaluation"}})
 	}
 	outs := make([]*FuncOut, len(todo))
 	var wg sync.WaitGroup
